@@ -218,3 +218,36 @@ with arg_ok (a : tyarg) : bool :=
   | ASeq l => args l
   | _ => true
   end.
+
+(* ---- additions for C07 (owner: C07 builder; additive only) ---- *)
+(* bounds of all elements of all rows, in order (the generator expression in Sum.type_bound) *)
+Definition row_bounds (l : list ty) : option (list bound) := mapO tbound l.
+Fixpoint rows_bounds (l : list (list ty)) : option (list bound) :=
+  match l with
+  | [] => Some []
+  | x :: r => match row_bounds x, rows_bounds r with Some b, Some bs => Some (b ++ bs) | _, _ => None end
+  end.
+
+(* the extension-type nodes (definition-backed or opaque) that `_to_serial` visits, in pre-order: each of
+   them is written as a serial `Opaque` record carrying a bound *)
+Fixpoint ser_exts (t : ty) : list ty :=
+  let fix row (l : list ty) : list ty := match l with [] => [] | x :: r => ser_exts x ++ row r end in
+  let fix rows (l : list (list ty)) : list ty := match l with [] => [] | x :: r => row x ++ rows r end in
+  let fix args (l : list tyarg) : list ty := match l with [] => [] | x :: r => arg_exts x ++ args r end in
+  match t with
+  | TSum rs => rows rs
+  | TFunc i o _ | TPoly _ i o _ => row i ++ row o
+  | TOpaque _ _ a _ => t :: args a
+  | TExt _ a _ => t :: args a
+  | _ => []
+  end
+with arg_exts (a : tyarg) : list ty :=
+  let fix args (l : list tyarg) : list ty := match l with [] => [] | x :: r => arg_exts x ++ args r end in
+  match a with
+  | AType t => ser_exts t
+  | ASeq l => args l
+  | _ => []
+  end.
+(* the `bound` fields of the serial Opaque records, in document order; ExtType._to_serial goes through
+   _to_opaque, which calls type_bound() *)
+Definition ser_bounds (t : ty) : option (list bound) := mapO tbound (ser_exts t).
